@@ -26,6 +26,13 @@ class CustomError(Exception):
         self.a, self.b = a, b
 
 
+class CtorError(Exception):
+    """the constructor does not accept the instance's own .args (a classic: cannot be rebuilt by calling the class)"""
+    def __init__(self, a, b):
+        super().__init__(f"{a}-{b}")
+        self.a = a
+
+
 class AttrError(ValueError):
     pass
 
@@ -126,6 +133,8 @@ def make_exception(name, key):
         return ValueError('boom', key)
     if name == 'CustomError':
         return CustomError('custom', key)
+    if name == 'CtorArgs':
+        return CtorError('ctor', key)
     if name == 'AttrError':
         e = AttrError('with attrs')
         e.extra = {'key': key}
